@@ -61,14 +61,20 @@ Init ==
    /\ execd = [t \in Tasks |-> 0] /\ wasDone = [t \in Tasks |-> FALSE] /\ envAtStart = env
 
 -----------------------------------------------------------------------------
+(* the orders in which the master may walk through the tasks of the job: the linear extensions of the full graph
+   (the topological sort of the implementation returns one of them, depending on how the job lists its tasks) *)
+JobOrders == LET J == {t \in Tasks : present[t]}  n == Cardinality(J) IN
+             {o \in [1 .. n -> J] : /\ \A p, q \in 1 .. n : p # q => o[p] # o[q]
+                                    /\ \A p, q \in 1 .. n : p < q => ~Edge(o[p], o[q])}
+
 (* read_env: only DONE entries of tasks of the job are merged *)
-StartRun ==
+StartRun(ord) ==
    /\ phase \in {"idle", "ended", "between"} /\ run < MaxRuns
    /\ run' = run + 1 /\ phase' = "running"
    /\ LET e0 == [t \in Tasks |-> IF present[t] /\ file[t].st = "DONE" THEN file[t] ELSE NoEntry] IN
       /\ env' = e0 /\ envAtStart' = e0
       /\ wasDone' = [t \in Tasks |-> e0[t].st = "DONE"]
-   /\ left' = SeqOf({t \in Tasks : present[t]}) /\ idx' = 1 /\ newleft' = <<>>
+   /\ left' = ord /\ idx' = 1 /\ newleft' = <<>>
    /\ nbefore' = Cardinality({t \in Tasks : present[t]}) /\ mwait' = FALSE /\ npend' = FALSE /\ ready' = {}
    /\ execd' = [t \in Tasks |-> 0]
    /\ UNCHANGED <<kind, hasdir, present, beh, file, clock, faults>>
@@ -138,7 +144,8 @@ Add(t)     == /\ Between /\ ~present[t] /\ (\A d \in AllDeps(t) : present[d])
 
 Finished == phase \in {"ended", "between"} /\ (run = MaxRuns \/ faults = MaxFaults) /\ UNCHANGED vars
 
-Next == \/ StartRun \/ MDecide \/ EndRun \/ Finished
+StartAny == \E ord \in JobOrders : StartRun(ord)
+Next == \/ StartAny \/ MDecide \/ EndRun \/ Finished
         \/ \E t \in Tasks : Exec(t, clock + 1, clock + 2)
         \/ \E t \in Tasks : Lose(t) \/ Add(t) \/ \E b \in Behs : Flip(t, b)
 Spec == Init /\ [][Next]_vars
